@@ -192,6 +192,16 @@ def exec_op(ctx: Ctx, op: dict, rec: dict) -> Any:
             ctx._table = datashard.Table(w.table_path, create_if_not_exists=not op.get("noinit"))
             ctx._noinit = bool(op.get("noinit"))
         res["noinit"] = bool(getattr(ctx, "_noinit", False))
+        if op.get("prebuilt"):
+            # the first append registers a PRE-BUILT parquet file (schema A, or B when `wide`) instead of records
+            df, rows, rel = stage_prebuilt(ctx._table, sim, op)
+            res["appends"] = [rows]
+            res["file_op"] = True
+            res["passed_schema"] = False
+            res["prebuilt"] = "B" if op.get("wide") else "A"
+            with ctx._table.new_transaction() as tx:
+                tx.append_files([df])
+            return True
         rows = mkrows(op["tag"], op.get("n", 1))
         res["appends"] = [rows]
         sname = op.get("schema")
@@ -421,6 +431,9 @@ def stage_prebuilt(t, sim, op: dict):
     from datashard import DataFile, FileFormat
     rows = mkrows(op["tag"], op.get("n", 1))
     arrow = pa.schema([pa.field("tag", pa.string(), nullable=False), pa.field("v", pa.int64())])
+    if op.get("wide"):
+        # the file carries schema B (one more column than schema A)
+        arrow = pa.schema(list(arrow) + [pa.field("w", pa.string())])
     buf = io.BytesIO()
     pq.write_table(pa.Table.from_pylist(rows, schema=arrow), buf)
     content = buf.getvalue()
